@@ -133,6 +133,11 @@ var c03Programs = []c03Prog{
 	{`BEGIN { print "begin" } BEGINFILE { print "bf", $ } $ is number { print "num", $ } $ is string { print "str", $ } END { print "end" }`, nil},
 	{`{ print "v", $ } ENDFILE { print "ef", $file }`, []string{"$"}},
 	{`{ print "v", $ }`, []string{"$.a", "$"}},
+	// programs that never look at the input still read it: a faulty stream is an error for them too
+	{`BEGIN { print "only begin" }`, nil},
+	{``, nil},
+	{`END { print "only end" }`, nil},
+	{`function unused() { return 1 } BEGIN { x = 1 }`, []string{"$"}},
 }
 
 // c03Out runs the program on a single value and returns its output (the unit of
@@ -292,7 +297,7 @@ func genChunks(t *rapid.T, n int) []int {
 
 func TestC03(t *testing.T) {
 	rec := start(t, "C03", "fault_enumeration",
-		"streams of 0-6 generated JSON values (top-level arrays, objects and scalars) joined by random legal separators (none where legal), read through a harness-owned io.Reader under a chunking schedule (1-byte reads, fixed and random chunk sizes, one big read) by 5 per-value stateless tracing programs (with and without selectors). Per stream, every fault position is enumerated: truncation at every byte, a read error at every byte (alone, and delivered together with the last bytes), and (sampled) single-byte corruption at every byte by 6 replacement bytes plus stray ] } , x between values. Oracles: (1) reference splitter = value-after-value decoding of the delivered bytes as a whole; (2) composition: output = BEGIN ++ out(v1) ++ ... ++ out(vn) ++ END with out(vi) the implementation's own output on the single value; with a fault after value j: JsonError naming the file, output = BEGIN ++ out(v1..vj), no END, no rule on the partial value; (3) identical results for every chunking; (4) incrementality: the reader withholds every byte beyond end(vk)+1 and, when asked for more, checks that out(v1..vk) is already written. Non-trivial: >= 2 values and (a chunk boundary inside a value, a fault, or a barrier after a top-level scalar). distinct = distinct (delivered bytes, schedule, fault, program).")
+		"streams of 0-6 generated JSON values (top-level arrays, objects and scalars) joined by random legal separators (none where legal), read through a harness-owned io.Reader under a chunking schedule (1-byte reads, fixed and random chunk sizes, one big read) by 9 programs (per-value stateless tracers with and without selectors, and programs that never look at the input: BEGIN-only, END-only, empty). Per stream, every fault position is enumerated: truncation at every byte, a read error at every byte (alone, and delivered together with the last bytes), and (sampled) single-byte corruption at every byte by 6 replacement bytes plus stray ] } , x between values. Oracles: (1) reference splitter = value-after-value decoding of the delivered bytes as a whole; (2) composition: output = BEGIN ++ out(v1) ++ ... ++ out(vn) ++ END with out(vi) the implementation's own output on the single value; with a fault after value j: JsonError naming the file, output = BEGIN ++ out(v1..vj), no END, no rule on the partial value; (3) identical results for every chunking; (4) incrementality: the reader withholds every byte beyond end(vk)+1 and, when asked for more, checks that out(v1..vk) is already written. Non-trivial: >= 2 values and (a chunk boundary inside a value, a fault, or a barrier after a top-level scalar). distinct = distinct (delivered bytes, schedule, fault, program).")
 	defer rec.Finish()
 	rec.Assume("the JSON grammar itself is not under test: encoding/json, used non-incrementally on the whole byte slice, is the reference splitter; the streaming loop around the decoder is what is checked")
 	rec.Assume("with a read error directly after a top-level scalar (no following byte delivered) the scalar may or may not count as complete")
@@ -315,7 +320,7 @@ func TestC03(t *testing.T) {
 	if evThorough() {
 		maxEnum = 200
 	}
-	check(rec, "stream-random", scale(1200, 40000), func(rt *rapid.T) {
+	check(rec, "stream-random", scale(1200, 500000), func(rt *rapid.T) {
 		stream, nvals := genC03Stream(rt)
 		prog := rapid.IntRange(0, len(c03Programs)-1).Draw(rt, "prog")
 		chunks := genChunks(rt, len(stream))
